@@ -46,4 +46,9 @@ def setup():
     if not os.path.abspath(isla.__file__).startswith(os.path.abspath(src) + os.sep):
         print("HARNESS-ERROR: isla imported from %s, expected under %s" % (isla.__file__, src), file=sys.stderr)
         sys.exit(2)
+    # import the heavy modules now: a watchdog alarm that interrupts the FIRST import (seconds, under load) leaves
+    # half-initialised modules in sys.modules and every later case of that worker fails
+    import isla.solver  # noqa: F401  (pulls in language, evaluator, parser, z3, antlr4, ...)
+    import isla.cli  # noqa: F401
+    import isla.mutator  # noqa: F401
     sys.setrecursionlimit(20000)
